@@ -817,6 +817,10 @@ func gen(r *hx.Rng, n int, tier string) []string {
 	// a handle holding a key its serializer refuses: every writer must fail or write something readable
 	add("U|jwthmac|0")
 	add("U|jwthmac|1")
+	// the JSON text layer: every fault family, text manipulation and accepted spelling (jsontext.go)
+	for _, l := range directedJSONText() {
+		add(l)
+	}
 
 	makeKey := func(url string, id uint32) (genKey, bool) {
 		var t *tinkpb.KeyTemplate
@@ -1044,6 +1048,11 @@ func gen(r *hx.Rng, n int, tier string) []string {
 			}
 			if l, ok := genHandle(r, c, makeKey, tier); ok {
 				add(l)
+				if r.Chance(60) { // the JSON text of the same keyset (jsontext.go)
+					for _, t := range jsonTextLines(r, l) {
+						add(t)
+					}
+				}
 			}
 		}
 	}
